@@ -177,10 +177,10 @@ def write_evidence_file(ctx: Ctx, t0: float, level: str, n_new: int, n_known: in
         d["instances"] += 1
         d["passed" if o.ok else "failed"] += 1
     samples = []
-    seen_rules = set()
-    for o in obs:  # one sample per rule first, then failures
-        if o.rule not in seen_rules:
-            seen_rules.add(o.rule)
+    seen_rules: dict[str, int] = {}
+    for o in obs:  # up to three samples per rule first, then failures
+        if seen_rules.get(o.rule, 0) < 3 and o.nontrivial:
+            seen_rules[o.rule] = seen_rules.get(o.rule, 0) + 1
             samples.append({"rule": o.rule, "construct": o.construct, "where": o.where, "verdict": "ok" if o.ok else "FAIL", "what": o.what[:300]})
     for o in obs:
         if not o.ok:
@@ -194,7 +194,7 @@ def write_evidence_file(ctx: Ctx, t0: float, level: str, n_new: int, n_known: in
         "distinct_nontrivial": len(distinct),
         "rule": "one obligation per (rule, construct) instance found in the current source; non-trivial = the construct "
         "actually carries the rule's subject (counted as distinct construct keys)",
-        "samples": samples[:40],
+        "samples": samples[:60],
         "per_rule": per_rule,
         "floors": ctx.floors,
         "modules_parsed": len(ctx.sm.modules) if ctx.sm else 0,
